@@ -11,6 +11,25 @@ BASE_NOTE = ("Trusted base: CPython 3.12, the reference model in the harness, th
 
 # pid -> (category, design_ref, text, technique, note)
 CHECKS = {
+    'C03': ('model_checking', 'DESIGN.md §3 C03, Appendix A',
+            'Every program up to the depth bound over five complete slices of watcher configurations (ordering/lifecycle, changes-only '
+            'filtering over a 22-value equality domain incl. 1/True/1.0/NaN/equal containers/dates/sets, queued and non-queued cascades, '
+            'slot watchers, class-level watchers) is executed on the real dispatcher; the trace recorded by the callbacks is checked for '
+            'inclusion in a reference dispatcher written from the statement (exactly-once, order, old/new identity, type, value visible at entry, depth-first cascades).',
+            'explicit-state BFS over operation histories of the real code; trace inclusion in a reference dispatcher',
+            BASE_NOTE),
+    'C04': ('model_checking', 'DESIGN.md §3 C04, Appendix A',
+            'Every token string up to the depth bound (assignments, update, trigger, Event sets, nested batch / discard / update-context frames) '
+            'over six watcher configurations is executed on the real dispatcher; deferral, coalescing to one call per watcher with the final value, '
+            'precedence order at the flush, exact discard, trigger semantics and restore-on-exit are checked against the reference dispatcher.',
+            'explicit-state BFS over token strings of the real code; trace inclusion in a reference dispatcher',
+            BASE_NOTE),
+    'C05': ('fault_enumeration', 'DESIGN.md §3 C05',
+            'For every token program up to the length bound, every subset (<= F) of watcher invocations is made to raise, and rejected update keys '
+            'and raising context bodies occur at every position; after each faulty run the survivor must (i) never run a watcher while a surviving '
+            'batch is open, (ii) have announced what a rejected update applied, (iii) answer a fixed probe exactly like a freshly built twin.',
+            'exhaustive fault enumeration (positions x programs) with a differential probe against a fresh twin',
+            BASE_NOTE),
     'C18': ('model_checking', 'DESIGN.md §3 C18',
             'Every mutation history up to the depth bound over list- and dict-declared Selector/ListSelector '
             '(class and instance level) is executed on the real ListProxy and compared after every step with a '
